@@ -196,7 +196,9 @@ def follower_facts(chk):
         return bs + [10]
 
     def run():
-        nested = eng.choose(2, 'a nested target')
+        # 0: plain lines only; 1: a `do` record for a nested target; 2: an `unchanged` record for it first (another dependent found it
+        # up to date - without --unchanged the viewer ignores such records), then the `do` record
+        nested = eng.choose(3, 'a nested target')
         w = LogWorld(eng, 10, {'follow': True, 'recursive': True, 'no-status': True})
         eng.world = w
         w.add_file(X_ID, b'x', is_generated=True, stamp=tuple(S1), changed_runid=5)
@@ -218,6 +220,8 @@ def follower_facts(chk):
             recp = [rec] if cut == 0 else ([rec[:9], rec[9:]] if cut == 1 else [rec[:-1], rec[-1:]])
             n0 = frag[0]
             pos = len(n0)
+            if nested == 2:
+                recp = [list(b'@@REDO:unchanged:76:1.4@@ sub\n')] + recp
             pieces[pos:pos] = recp
             sublines = [sym_line('s%d_' % i) for i in range(2)]
             sp = splits(sublines[0], MAXP)
@@ -235,7 +239,7 @@ def follower_facts(chk):
 
     def judge(outcome, val, path):
         w = st['w']
-        wit = {'op': 'follower', 'fragments': st['frag'], 'nested': bool(st['nested']),
+        wit = {'op': 'follower', 'fragments': st['frag'], 'nested': bool(st['nested']), 'nested_kind': st['nested'],
                'reads': [(d['fid'], d['n'], d['newline']) for k, d in w.log if k == 'read_line']}
         if outcome == 'panic':
             return {'role': 'follower:panic', 'kind': 'follower', 'witness': wit, 'what': 'the log follower aborts: %s' % val.msg}
@@ -249,6 +253,7 @@ def follower_facts(chk):
         chk.goal('follower: a read returns nothing while the writer is alive', any(k == 'read_line' and d['n'] == 0 for k, d in w.log) and
                  any(k == 'is_locked' and d['busy'] for k, d in w.log))
         chk.goal('follower: a nested target is followed', bool(st['nested']))
+        chk.goal('follower: an `unchanged` record precedes the `do` record of the same target', st['nested'] == 2)
         bad = None
         if len(got) != len(exp):
             bad = 'it emits %d lines / records, %d were written' % (len(got), len(exp))
@@ -292,7 +297,23 @@ FOLLOW_SCRIPT = ('redo --no-status --no-color --no-pretty -j1 all >live.out 2>li
                  'in the live output and $m time(s) in redo-log -r (expected once each), exit $rc"; else echo "line intact in both"; fi')
 
 
+FOLLOW2_FILES = {
+    # b (followed first) finds c already built by a: its log gets an `unchanged c` record before the viewer has seen c's own `do`
+    'c.do': 'echo c-line-1 >&2\necho c-line-2 >&2\necho c\n',
+    'a.do': 'redo-ifchange c\n: > a.done\nsleep 1\necho a\n',
+    'b.do': 'n=0; while [ ! -e a.done ] && [ $n -lt 100 ]; do sleep 0.1; n=$((n+1)); done\nredo-ifchange c\necho b\n',
+    'all.do': 'redo-ifchange b a\n',
+}
+FOLLOW2_SCRIPT = ('timeout 60 redo --no-status --no-color --no-pretty -j3 all >live.out 2>live.err; rc=$?; tail -8 live.err | cut -c1-120; '
+                  'n=$(grep -c "c-line-1" live.err); m=$(redo-log --no-pretty --no-color -r all 2>&1 | grep -c "c-line-1"); '
+                  'if [ "$n" -ne 1 ] || [ "$m" -ne 1 ]; then echo "REPRODUCED: the stderr line of c.do appears $n time(s) in the live output '
+                  'and $m time(s) in redo-log -r all (expected once each), exit $rc"; else echo "line shown once in both"; fi')
+
+
 def replay(scn, c):
-    rc, out = scn.run(FOLLOW_FILES, FOLLOW_SCRIPT, timeout=120)
-    c['native_scenario'] = {'files': FOLLOW_FILES, 'script': FOLLOW_SCRIPT}
+    w = c.get('witness') or {}
+    files, script = (FOLLOW2_FILES, FOLLOW2_SCRIPT) if w.get('nested_kind') == 2 and 'lost-or-duplicated' in c.get('role', '') else \
+        (FOLLOW_FILES, FOLLOW_SCRIPT)
+    rc, out = scn.run(files, script, timeout=120)
+    c['native_scenario'] = {'files': files, 'script': script}
     return 'REPRODUCED' in out, 'real binaries: ' + out.strip()[-500:]
